@@ -202,6 +202,31 @@ func (e *Engine) intrinsic(name string) stubFn {
 		return func(m *Machine, c *frame, fn *ssa.Function, a []Value) Value {
 			return sym.StrPrefixOf(m.term(a[1]), m.term(a[0]))
 		}
+	case "vrf_yield":
+		// let the program's other goroutines run until each of them blocks
+		return func(m *Machine, c *frame, fn *ssa.Function, a []Value) Value {
+			for i := 0; i < 64 && m.runCoros(); i++ {
+			}
+			return nil
+		}
+	case "vrf_advance_time":
+		// time passes: every running timer expires, then the goroutines run
+		return func(m *Machine, c *frame, fn *ssa.Function, a []Value) Value {
+			m.fireTimers()
+			for i := 0; i < 64 && m.runCoros(); i++ {
+			}
+			return nil
+		}
+	case "vrf_blocked_goroutines":
+		return func(m *Machine, c *frame, fn *ssa.Function, a []Value) Value {
+			n := 0
+			for _, co := range m.coros {
+				if !co.done && co.started {
+					n++
+				}
+			}
+			return sym.BVConst(64, uint64(n))
+		}
 	case "vrf_now":
 		return func(m *Machine, c *frame, fn *ssa.Function, a []Value) Value { return m.nowTerm() }
 	case "vrf_locks_held":
